@@ -220,8 +220,9 @@ def small_scope(name, level, point=False, allow_zero_cap=True):
                     for b in boxes(n):
                         yield {"type": name, "params": list(cs) + [r], "box": [list(x) for x in b]}
     elif name in ("alldifferent", "dummy"):
-        for n in range(1, max_n + 2):
-            for b in boxes(n, 0, 3 if n < 4 else 2):
+        top = max_n + 2 if (point or name == "dummy") else max_n + 3  # alldifferent: 4 variables in quick, 5 in thorough
+        for n in range(1, top):
+            for b in boxes(n, 0, 3 if (n < 4 or name == "alldifferent") else 2):
                 yield {"type": name, "params": [], "box": [list(x) for x in b]}
     elif t.boolean:
         for n in range(t.min_n, max_n + 3):
